@@ -1,3 +1,4 @@
 import Driver.Common
--- stub driver (not yet implemented)
-def main : IO Unit := Driver.run () (fun s _ => (s, "bad-op"))
+import SSV.Model.StreamDriver
+/- ssv_c02: same model and protocol as ssv_c01; the C02 engine additionally uses the `tamper` commands -/
+def main : IO Unit := Driver.run SSV.Stream.Drv.init SSV.Stream.Drv.step
